@@ -17,7 +17,7 @@ theorem contractId_commits (bs : List (List Change)) (hok : ∀ b ∈ bs, Distin
 /-- C03.P7: `getstate` addressed by contract hash at the root of a height returns what storage of that
 height holds under `uint32(id) ‖ key`, `id` being the one recorded for the hash at that height. -/
 theorem getstate_by_hash_commits (bs : List (List Change)) (hok : ∀ b ∈ bs, DistinctKeys b)
-    (mgmt : Nat) (hash key : Bytes) :
+    (mgmt : Nat) (hash key : Bytes) (hlen : key.length ≤ 64) :
     getStateByHash (trieAt mptMap bs) mgmt hash key =
       ((storageAt bs (contractKey mgmt hash)).bind decodeContractId).bind
         fun id => storageAt bs (makeStorageKey id key) := by
@@ -25,7 +25,7 @@ theorem getstate_by_hash_commits (bs : List (List Change)) (hok : ∀ b ∈ bs, 
   rw [contractId_commits bs hok]
   congr 1
   funext id
-  exact getstate_commits bs hok id key
+  exact getstate_commits bs hok id key hlen
 
 -- non-vacuity: Management (id -1 = 0xffffffff) records contract hash ab.. with id 5 at height 1; the
 -- contract writes 01 ↦ 07 at height 2; at height 0 the hash is unknown
